@@ -4,6 +4,7 @@ import Vata.NfaOps
 import Vata.NfaIncl
 import Vata.NfaInclSim
 import Vata.Properties.C09_Sim
+import Vata.Proofs.NfaInclSimACTotal
 /-! # Driver side of NFA histories (`nfah`): properties C09, C10, C11 (word automata) -/
 open Vata
 open Vata.W (NFA acceptsW)
@@ -187,7 +188,7 @@ partial def go (steps : List String) (res : List String) (k : Nat) (pool : List 
       let v ← getE (kv res s!"vs{k}") "missing sim verdict vector"
       let exp ← getE (inclW A B FUEL) "fuel"
       if v.length != 2 then throw "bad sim verdict vector"
-      for (c, n, mo) in [(v.toList[0]!, "antichains+sim", nfaInclACSimRaw A B R 100000), (v.toList[1]!, "congr-depth+sim", nfaInclCongrSimRaw A B R 100000)] do
+      for (c, n, mo) in [(v.toList[0]!, "antichains+sim", nfaInclACSimRaw A B R (NfaIncl.fuelBoundAC A B + 1)), (v.toList[1]!, "congr-depth+sim", nfaInclCongrSimRaw A B R 100000)] do
         if c == 'T' then f := f ++ [s!"violation step {k} incl[{n}] did not return within its budget"]
         else if c != bchar exp then f := f ++ [s!"violation step {k} incl[{n}]={c} reference={bchar exp}"]
         match mo with
